@@ -93,7 +93,5 @@ Theorem C19_live_process_frames : forall pre post p x,
   AgentProc.untouched p pre -> AgentProc.no_exit p post ->
   frames_of x (AgentProc.frames_for p (AgentProc.g_run true (pre ++ AgentProc.PAccept p :: post)))
   = zipl (ins_of x (AgentProc.fires_of p post)) (outs_of x (AgentProc.fires_of p post)).
-Proof.
-  intros pre post p x Hu Hn. destruct (AgentProc.live_frames pre post p Hu Hn) as [E _]. rewrite E. apply frames_zip.
-Qed.
+Proof. exact AgentProc.live_process_frames. Qed.
 Print Assumptions C19_live_process_frames.
